@@ -323,6 +323,7 @@ class LogicLoader:
                     all_modules.append(module)
 
         logic_map: Dict[str, Callable[..., Any]] = {}
+        aliases: List[Any] = []
 
         # 🔎 Scan all modules for functions
         for module in all_modules:
@@ -333,7 +334,7 @@ class LogicLoader:
             for name, func in inspect.getmembers(module, inspect.isfunction):
                 if not name.startswith("_"):
                     logic_map[name] = func
-                    logic_map[_snake_to_camel(name)] = func
+                    aliases.append((_snake_to_camel(name), func))
 
         # 🔎 Scan all provider instances for methods (overrides module functions)
         if logic_providers:
@@ -348,7 +349,13 @@ class LogicLoader:
                 ):
                     if not name.startswith("_"):
                         logic_map[name] = method
-                        logic_map[_snake_to_camel(name)] = method
+                        aliases.append((_snake_to_camel(name), method))
+
+        # 🔤 camelCase aliases never shadow an implementation that carries the
+        #    referenced name itself: with both `doIt` and `do_it` supplied,
+        #    the alias of `do_it` used to replace the real `doIt`.
+        for alias, implementation in aliases:
+            logic_map.setdefault(alias, implementation)
 
         # ---------------------------------------------------------------------
         # 📋 Step 2: Extract all required logic names from the config.
